@@ -5,5 +5,6 @@ EXTENDS Units, Json, IOUtils
 Ser(m) == [num |-> m.coef[1], den |-> m.coef[2], pow |-> m.pow]
 ASSUME JsonSerialize(IOEnv.OUT_FILE,
    [ase_quadrature |-> Ser(AseQuadrature), ase_total |-> Ser(AseTotal), thermal_A2 |-> Ser(ThermalA2),
-    shot_signal_A2 |-> Ser(ShotA2({"r", "P"})), shot_dark_A2 |-> Ser(ShotA2({"idark"}))])
+    shot_signal_A2 |-> Ser(ShotA2({"r", "P"})), shot_dark_A2 |-> Ser(ShotA2({"idark"})),
+    thermal_V2 |-> Ser(ThermalV2), shot_V2 |-> Ser(ShotV2), pase_opt |-> Ser(PaseOpt), mu_ase |-> Ser(MuAse), level |-> Ser(Level)])
 =============================================================================
